@@ -354,3 +354,46 @@ pub fn gen_c14_direct(rng: &mut Rng, thorough: bool) -> Trace {
     });
     t
 }
+
+/// Loader leg: the same payloads inside an ANSI file; the loader's drain loop (virtual sleeps) is the
+/// scheduling point, `cfg.doc` the release schedule.
+pub fn gen_c14_load(rng: &mut Rng, thorough: bool) -> Trace {
+    let mut t = Trace::new("C14", "load");
+    t.cfg.clock_ms = 1_700_000_000_000;
+    let k = 2 + rng.usize(if thorough { 4 } else { 3 });
+    let anchors: [(i32, i32); 5] = [(1, 1), (1, 1), (2, 2), (1, 9), (3, 1)];
+    let mut bytes = Vec::new();
+    for _ in 0..k {
+        let (row, col) = *rng.pick(&anchors);
+        let (mw, mr) = match rng.below(3) {
+            0 => (8, 1),
+            1 => (24, 3),
+            _ => (120, 6),
+        };
+        let bad = rng.chance(1, 6);
+        let p = payload(rng, mw, mr, bad);
+        bytes.extend(format!("\x1b[{row};{col}H").into_bytes());
+        bytes.extend(dcs("", &p.text));
+    }
+    // schedule: any order of the tickets, idle sleeps in between, possibly incomplete
+    let mut order: Vec<i64> = (0..k as i64).collect();
+    rng.shuffle(&mut order);
+    let keep = rng.usize(k + 1);
+    for (i, o) in order.into_iter().enumerate() {
+        if i >= keep && rng.chance(1, 2) {
+            break;
+        }
+        if rng.chance(1, 4) {
+            t.cfg.doc.push(-1);
+        }
+        t.cfg.doc.push(o);
+    }
+    t.labels.push(format!("k={k}"));
+    t.labels.push("sched_kind=loader".into());
+    t.events.push(Ev::Load {
+        entry: "Buffer::from_bytes".into(),
+        name: "sixel.ans".into(),
+        hex: crate::trace::to_hex(&bytes),
+    });
+    t
+}
